@@ -117,6 +117,67 @@ func measuredOnce(e *Env, en Entry, doc []byte, fromDoc bool, tmpl interface{}, 
 	return
 }
 
+// measuredReused runs first on a fresh long-lived instance, then measures second on the same instance.
+func measuredReused(e *Env, en Entry, first, second []byte, tmpl interface{}, cfg *configuration.Configuration, withRules bool) (alloc uint64, steps int, res Result) {
+	cnt := &rec.Counter{}
+	var rcv events.DataEventReceiver = cnt
+	if withRules {
+		rcv = ce.NewRules(cnt, cfg)
+	}
+	var run func(doc []byte) (int, error)
+	switch en {
+	case EUnmarshalCBE:
+		u := ce.NewCBEUnmarshaler(cfg)
+		run = func(doc []byte) (int, error) {
+			r := simio.NewReader(doc, simio.ReaderPlan{Cut: -1})
+			_, err := u.Unmarshal(r, tmpl)
+			return r.Calls, err
+		}
+	case EUnmarshalCTE, EUnmarshalCE:
+		u := ce.NewCTEUnmarshaler(cfg)
+		if len(first) > 0 && first[0] == 0x81 {
+			u = ce.NewCBEUnmarshaler(cfg)
+		}
+		run = func(doc []byte) (int, error) {
+			r := simio.NewReader(doc, simio.ReaderPlan{Cut: -1})
+			_, err := u.Unmarshal(r, tmpl)
+			return r.Calls, err
+		}
+	default:
+		var d ce.Decoder
+		switch en {
+		case EDecodeCBE:
+			d = ce.NewCBEDecoder(cfg)
+		case EDecodeCTE:
+			d = ce.NewCTEDecoder(cfg)
+		default:
+			d = ce.NewCEDecoder(cfg)
+		}
+		run = func(doc []byte) (int, error) {
+			r := simio.NewReader(doc, simio.ReaderPlan{Cut: -1})
+			if rr, ok := rcv.(interface{ Reset() }); ok {
+				rr.Reset()
+			}
+			err := d.Decode(r, rcv)
+			return r.Calls, err
+		}
+	}
+	name := "reused:" + en.String()
+	if p := e.Op(name+"(first)", func() { run(first) }); p != nil {
+		res.Panic = p
+		return
+	}
+	// warm the second document's path once on another instance? No: the point is
+	// this instance's state. Measure directly.
+	var calls int
+	cnt.Events = 0
+	before := totalAlloc()
+	res.Panic = e.Op(name+"(second)", func() { calls, res.Err = run(second) })
+	alloc = totalAlloc() - before
+	steps = calls + cnt.Events
+	return
+}
+
 var minimalDocs = map[gen.Format][]byte{gen.CBE: {0x81, 0x00, 0x01}, gen.CTE: []byte("c0\n1")}
 
 var calibrated sync.Once
@@ -359,7 +420,21 @@ func runC08(e *Env) Outcome {
 	measured(e, en, minimalDocs[f], fromDoc, tmpl, cfg, withRules, "ref:")
 	base, _, _ := measured(e, en, minimalDocs[f], fromDoc, tmpl, cfg, withRules, "ref:")
 
-	alloc, steps, res := measured(e, en, doc, fromDoc, tmpl, cfg, withRules, "")
+	var alloc uint64
+	var steps int
+	var res Result
+	if t.Chance("reused-instance", 1, 4) {
+		// one long-lived decoder/unmarshaler: the adversarial document first
+		// (whatever it does), then a small benign one whose cost is measured
+		second := benignFamily(f, t.Intn("second-family", 4), []int{3, 40, 300}[t.Intn("second-size", 3)])
+		sc.Family += "; then a benign document on the SAME instance (measured)"
+		e.Count("reused_instance_measurements", 1)
+		alloc, steps, res = measuredReused(e, en, doc, second, tmpl, cfg, withRules)
+		doc = second
+		sc.DocLen = len(doc)
+	} else {
+		alloc, steps, res = measured(e, en, doc, fromDoc, tmpl, cfg, withRules, "")
+	}
 	k := uint64(kCBE)
 	if f == gen.CTE {
 		k = kCTE
